@@ -21,6 +21,13 @@ TLA_LIB = ":".join(str(SPEC / d) for d in ("", "lib", "mc", "trace"))
 NCPU = os.cpu_count() or 8
 
 
+def use_spec_dir(path):
+    """Run TLC on a copy of the specification (a check that regenerates transcribed tables from the working tree)."""
+    global SPEC, TLA_LIB
+    SPEC = Path(path)
+    TLA_LIB = ":".join(str(SPEC / d) for d in ("", "lib", "mc", "trace"))
+
+
 class ToolError(Exception):
     pass
 
